@@ -13,6 +13,15 @@
                       does not change afterwards
     no early timeout  NNG_ETIMEDOUT is reported only when the configured duration has passed
                       since the operation was started; a sleep does not end early
+    one-shot expiry   an absolute expiry (nng_aio_set_expire) governs the next operation started
+                      only: once that operation is completed through the provider (a test-and-remove
+                      was won, or the provider completed it synchronously: nni_aio_finish_impl clears
+                      a_use_expire) the relative timeout configured last with nng_aio_set_timeout is in
+                      force again; nng_aio_set_timeout drops it too; a start that nni_aio_start refuses
+                      (stopped, abort pending, already expired) does not consume it
+    timer liveness    when nothing more can happen unless time passes or a call is made (`settled`),
+                      no operation that the generic provider accepted is still pending with its
+                      deadline strictly in the past
     cancel codes      a cancel / abort / stop code is reported only for an operation during whose
                       lifetime that cancel / abort / stop was issued
     quiescence        when nng_aio_stop returns no callback is running, every operation whose
@@ -48,6 +57,8 @@ inductive Obs
   | stopCall | stopRet | freeCall | freeRet
   | tick (d : Nat)
   | quiet                                 -- end of the execution: everything has drained
+  | settled                               -- every thread of the program and of the library is blocked or idle:
+                                          -- nothing more happens unless virtual time passes or a call is made
 deriving Repr, DecidableEq, Inhabited, BEq
 
 structure Op where
@@ -57,6 +68,7 @@ structure Op where
   absExp : Option Nat
   decided : Option Nat := none
   ret : Option Nat := none
+  tret : Nat := 0               -- virtual time at which the start call returned
   retBeforeStop : Bool := false
   reported : Bool := false
   userTimeout : Bool := false   -- the user itself passed ETIMEDOUT to abort
@@ -104,6 +116,17 @@ def timeoutDue (o : Op) (now : Nat) : Bool :=
     | .never => false
     | .ms d => decide (o.tsub + d ≤ now)
 
+/-- has the deadline of `o` certainly passed at `now`?  (`nni_aio_start` reads the clock for a relative
+    timeout somewhere between the call and the return of the start; the expire thread fires strictly
+    after the deadline) -/
+def overdue (o : Op) (now : Nat) : Bool :=
+  match o.absExp with
+  | some e => decide (e < now)
+  | none =>
+    match o.tmo with
+    | .ms d => decide (o.tret + d < now)
+    | _ => false
+
 /-- may a completion that nobody decided by a test-and-remove (start refused, sleep, real provider)
     legitimately carry `r`?  A cancel/abort/stop code needs a cancel/abort/stop issued during the
     operation's lifetime (timeouts are judged by their own clause). -/
@@ -121,6 +144,7 @@ def step (j : J) (o : Obs) : J :=
     | .tick d => { j with now := j.now + d }
     | .quiet => if j.reports = j.ops.length then j else j.fail "exactly-once: fewer reports than operations at quiescence"
     | .provDone _ false => j      -- the provider looked for the aio on its own list and did not find it
+    | .settled => j
     | _ => j.fail "quiescence: event on the aio after nng_aio_free returned"
   else
   match o with
@@ -130,12 +154,15 @@ def step (j : J) (o : Obs) : J :=
   | .skipArm => { j with skipArmed := true }
   | .subCall k =>
     -- (an abort still in flight at the start may hit this operation: its code, ETIMEDOUT included, is the user's)
+    -- (one-shot expiry: an operation the provider completes synchronously goes through nni_aio_finish,
+    --  which clears a_use_expire; for the others see the test-and-remove observations)
     { j with ops := { kind := k, tsub := j.now, tmo := j.tmo, absExp := j.absExp, aborts := j.openCodes,
-                      userTimeout := j.openCodes.contains ETIMEDOUT } :: j.ops }
+                      userTimeout := j.openCodes.contains ETIMEDOUT } :: j.ops,
+             absExp := match k with | .direct _ => none | _ => j.absExp }
   | .subRet v =>
     -- (a start refused after nng_aio_stop returned completes the operation with NNG_ESTOPPED)
     let j := { j with ops := updNewest j.ops fun o =>
-      { o with ret := some v, retBeforeStop := !j.stopCalled,
+      { o with ret := some v, tret := j.now, retBeforeStop := !j.stopCalled,
                decided := if v = 0 && j.stopReturned && o.kind == Kind.gen && o.decided.isNone then some ESTOPPED else o.decided } }
     match j.ops with
     | o :: _ =>
@@ -155,14 +182,15 @@ def step (j : J) (o : Obs) : J :=
     match j.ops with
     | o :: _ =>
       if o.decided.isSome || o.reported then j.fail "exactly-once: operation completed twice (provider)"
-      else { j with ops := updNewest j.ops fun o => { o with decided := some rv } }
+      -- (one-shot expiry: whoever wins the test-and-remove calls nni_aio_finish, which clears a_use_expire)
+      else { j with ops := updNewest j.ops fun o => { o with decided := some rv }, absExp := none }
     | [] => j.fail "exactly-once: completion without an operation"
   | .cancelRan rv won =>
     if !won then j else
     match j.ops with
     | o :: _ =>
       if o.decided.isSome || o.reported then j.fail "exactly-once: operation completed twice (cancel)"
-      else { j with ops := updNewest j.ops fun o => { o with decided := some rv } }
+      else { j with ops := updNewest j.ops fun o => { o with decided := some rv }, absExp := none }
     | [] => j.fail "exactly-once: cancellation without an operation"
   | .abortCall rv =>
     { j with openAborts := j.openAborts + 1, openCodes := rv :: j.openCodes,
@@ -208,6 +236,13 @@ def step (j : J) (o : Obs) : J :=
     else { j with freeReturned := true }
   | .quiet =>
     if j.reports = j.ops.length then j else j.fail "exactly-once: fewer reports than operations at quiescence"
+  | .settled =>
+    match j.ops with
+    | o :: _ =>
+      if o.kind == Kind.gen && o.ret == some 1 && !o.reported && overdue o j.now then
+        j.fail "timeout: an operation is still pending after its deadline although nothing else can happen"
+      else j
+    | [] => j
 
 /-- the monitor: `none` = the execution satisfies C02 -/
 def judge (tr : List Obs) : Option String := (tr.foldl step {}).err
